@@ -2,6 +2,7 @@ package lmtp
 
 import (
 	"context"
+	"errors"
 	"fmt"
 	"log"
 	"net"
@@ -25,6 +26,7 @@ type Server struct {
 	tcpListener  net.Listener
 	wg           sync.WaitGroup
 	shutdown     chan struct{}
+	shutdownOnce sync.Once
 	mu           sync.Mutex
 }
 
@@ -222,14 +224,14 @@ func (s *Server) Shutdown() error {
 
 	log.Println("Shutting down LMTP server...")
 
-	// Signal shutdown
-	close(s.shutdown)
+	// Signal shutdown (once: a second Shutdown must not close the closed channel)
+	s.shutdownOnce.Do(func() { close(s.shutdown) })
 
 	// Close listeners
 	var errs []error
 
 	if s.unixListener != nil {
-		if err := s.unixListener.Close(); err != nil {
+		if err := s.unixListener.Close(); err != nil && !errors.Is(err, net.ErrClosed) {
 			errs = append(errs, fmt.Errorf("error closing UNIX listener: %w", err))
 		}
 		// Clean up socket file
@@ -239,7 +241,7 @@ func (s *Server) Shutdown() error {
 	}
 
 	if s.tcpListener != nil {
-		if err := s.tcpListener.Close(); err != nil {
+		if err := s.tcpListener.Close(); err != nil && !errors.Is(err, net.ErrClosed) {
 			errs = append(errs, fmt.Errorf("error closing TCP listener: %w", err))
 		}
 	}
